@@ -34,8 +34,10 @@ def demo_plan():
     for f in glob.glob(os.path.join(demo, "*.go")):
         txt = open(f).read()
         base = os.path.basename(f)
-        m = re.search(r"cp\s+\S*%s\s+\S*?(?:<repo>|\$\w+|/tmp/wt2?/%s)/([\w/]+?)/?(?:%s)?\s" % (re.escape(base), pid, re.escape(base)), run + "\n")
+        m = re.search(r"cp\s+\S*%s\s+\S*?(?:<repo>|\$\w+|/tmp/wt\d*/%s)/([\w/]+?)/?(?:%s)?\s" % (re.escape(base), pid, re.escape(base)), run + "\n")
         d = m.group(1) if m else None
+        if d and not os.path.isdir(os.path.join(wt, d)):
+            d = os.path.dirname(d) or None  # the copy renames the file (cp x_test.go <dir>/zz_x_test.go)
         if d is None:
             pk = re.search(r"^package (\w+)", txt, re.M).group(1).replace("_test", "")
             d = pk
@@ -53,7 +55,7 @@ def run_demo():
         shutil.rmtree(tmp, ignore_errors=True)
         shutil.copytree(demo, tmp)
         gm = open(os.path.join(tmp, "go.mod")).read()
-        gm = re.sub(r"=> /tmp/wt[245]?/[CX]\d+", "=> " + wt, gm)
+        gm = re.sub(r"=> /tmp/wt\d*/[A-Z]\d+", "=> " + wt, gm)
         open(os.path.join(tmp, "go.mod"), "w").write(gm)
         shutil.copy(os.path.join(wt, "go.sum"), os.path.join(tmp, "go.sum"))
         rc2, out2 = sh("bash -c '%s test -count=1 ./... > /tmp/vs-out-%s%s.txt 2>&1; echo $?'" % (GO, pid, var), cwd=tmp, timeout=1800)
